@@ -6,7 +6,7 @@ import warnings
 from ..core import Acc, Violation, guarded, run_hypothesis, shard_seed
 
 PROPERTY = 'C18'
-RULE = ('version strings = 1-3 numeric groups over {0,1,2,3,10} x suffix in {"",a,b,rc1,-x,A," "," a"} (1,240 strings, '
+RULE = ('version strings = 1-3 numeric groups over {0,1,2,3,10} x suffix in {"",a,b,rc1,-x,A," "," a",rc01,rc10} (1,550 strings, '
         'enumerated) plus Hypothesis strings matching the constructor regex (no newline in suffix); every ordered pair '
         'is checked for trichotomy, agreement of the six operators with an independent reference key, string operands '
         'on either side, hash/set/dict consistency, nearest(); triples for transitivity. Non-trivial = the two strings '
@@ -18,7 +18,7 @@ FEATURES = {'version.hash': 'equal versions with different zero padding hash dif
 EXHAUSTIVE_CLAIM = True
 
 GROUPS = ['0', '1', '2', '3', '10']
-SUFFIXES = ['', 'a', 'b', 'rc1', '-x', 'A', ' ', ' a']
+SUFFIXES = ['', 'a', 'b', 'rc1', '-x', 'A', ' ', ' a', 'rc01', 'rc10']
 
 
 def universe():
